@@ -45,7 +45,8 @@ pub fn gen_val(r: &mut Rng, ty: Ty) -> Value {
     }
 }
 
-/// Relations r0..r5 with fixed column types; 0-8 distinct tuples each.
+/// Relations r0..r7 with fixed column types (r6, r7: three / four Int columns, so that joins on
+/// several keys in any order leave non-key columns behind them); 0-8 distinct tuples each.
 pub fn gen_db(r: &mut Rng) -> Db {
     let shapes: Vec<Vec<Ty>> = vec![
         vec![Ty::Int, Ty::Int],
@@ -54,6 +55,8 @@ pub fn gen_db(r: &mut Rng) -> Db {
         vec![Ty::Int],
         vec![Ty::Str, Ty::Bool],
         vec![Ty::Int, Ty::Float],
+        vec![Ty::Int, Ty::Int, Ty::Int],
+        vec![Ty::Int, Ty::Int, Ty::Int, Ty::Int],
     ];
     let mut rels = vec![];
     for (i, tys) in shapes.into_iter().enumerate() {
@@ -370,6 +373,62 @@ impl<'a> Gen<'a> {
         (IRNode::Scan { relation: name, schema: sch }, tys)
     }
 
+    fn scan_of(&mut self, i: usize) -> (IRNode, Vec<Ty>) {
+        self.tally("Scan");
+        let (name, tys, _) = &self.db.rels[i];
+        let tys = tys.clone();
+        let name = name.clone();
+        let sch = self.names(tys.len());
+        (IRNode::Scan { relation: name, schema: sch }, tys)
+    }
+
+    /// A join; returns (node, output types, left width). `multi`: up to three key pairs in any
+    /// order (ascending, descending, repeated right keys when allowed), inputs biased towards the
+    /// wide all-Int relations so that non-key right columns remain behind the keys.
+    fn make_join(&mut self, depth: u32, multi: bool) -> (IRNode, Vec<Ty>, usize) {
+        let nrel = self.db.rels.len();
+        let (l, lt) = if multi && self.r.chance(1, 2) {
+            let i = *self.r.pick(&[0usize, 1, nrel - 2, nrel - 1]);
+            self.scan_of(i)
+        } else {
+            self.gen_tree(depth)
+        };
+        let (r, rt) = if multi && self.r.chance(2, 3) {
+            let i = *self.r.pick(&[nrel - 2, nrel - 1, nrel - 1, 2]);
+            self.scan_of(i)
+        } else {
+            self.gen_tree(depth)
+        };
+        self.tally("Join");
+        let (lk, rk) = self.gen_keys(&lt, &rt, if multi { 3 } else { 2 });
+        if lk.len() >= 2 {
+            self.tally(if rk.windows(2).all(|w| w[0] < w[1]) { "join_keys:multi-ascending" } else { "join_keys:multi-unsorted-or-repeated" });
+        }
+        let mut out = lt.clone();
+        for (j, ty) in rt.iter().enumerate() {
+            if lk.is_empty() || !rk.contains(&j) {
+                out.push(*ty);
+            }
+        }
+        let sch = self.names(out.len());
+        let lw = lt.len();
+        (IRNode::Join { left: Box::new(l), right: Box::new(r), left_keys: lk, right_keys: rk, output_schema: sch }, out, lw)
+    }
+
+    /// projection over a join output that mostly selects columns of the right (non-key) block
+    fn join_projection(&mut self, w: usize, lw: usize) -> Vec<usize> {
+        let n = self.r.range(1, 3) as usize;
+        (0..n)
+            .map(|_| {
+                if w > lw && self.r.chance(2, 3) {
+                    lw + self.r.below((w - lw) as u64) as usize
+                } else {
+                    self.r.below(w as u64) as usize
+                }
+            })
+            .collect()
+    }
+
     pub fn gen_tree(&mut self, depth: u32) -> (IRNode, Vec<Ty>) {
         if depth == 0 || self.r.chance(1, 7) {
             if self.r.chance(1, 40) {
@@ -393,6 +452,25 @@ impl<'a> Gen<'a> {
             k = *self.r.pick(&[5u64, 20, 55, 60, 85, 92]);
         }
         match k {
+            10..=15 if !self.no_combine => {
+                // Map / FlatMap directly over a (multi-key) join: the shape fuse_to_join_flatmap rewrites
+                let (j, tys, lw) = self.make_join(depth - 1, true);
+                let w = tys.len();
+                if w == 0 {
+                    return (j, tys);
+                }
+                let proj = self.join_projection(w, lw);
+                let out: Vec<Ty> = proj.iter().map(|i| tys[*i]).collect();
+                let sch = self.names(proj.len());
+                if self.r.chance(1, 3) {
+                    self.tally("FlatMap");
+                    let fp = if self.r.chance(1, 2) { Some(self.gen_pred(&out, 1)) } else { None };
+                    (IRNode::FlatMap { input: Box::new(j), projection: proj, filter_predicate: fp, output_schema: sch }, out)
+                } else {
+                    self.tally("Map");
+                    (IRNode::Map { input: Box::new(j), projection: proj, output_schema: sch }, out)
+                }
+            }
             0..=15 => {
                 let (c, tys) = self.gen_tree(depth - 1);
                 self.tally("Map");
@@ -417,18 +495,9 @@ impl<'a> Gen<'a> {
                 (IRNode::Filter { input: Box::new(c), predicate: p }, tys)
             }
             34..=51 => {
-                let (l, lt) = self.gen_tree(depth - 1);
-                let (r, rt) = self.gen_tree(depth - 1);
-                self.tally("Join");
-                let (lk, rk) = self.gen_keys(&lt, &rt, 2);
-                let mut out = lt.clone();
-                for (j, ty) in rt.iter().enumerate() {
-                    if lk.is_empty() || !rk.contains(&j) {
-                        out.push(*ty);
-                    }
-                }
-                let sch = self.names(out.len());
-                (IRNode::Join { left: Box::new(l), right: Box::new(r), left_keys: lk, right_keys: rk, output_schema: sch }, out)
+                let multi = self.r.chance(1, 3);
+                let (j, out, _) = self.make_join(depth - 1, multi);
+                (j, out)
             }
             52..=57 => {
                 let (c, tys) = self.gen_tree(depth - 1);
